@@ -45,7 +45,15 @@ func genC20(r *Rng, k int) *RunSpec {
 				ids = append(ids, iid)
 			}
 			if r.Intn(3) == 0 {
-				items = append(items, J{"type": Pick(r, []string{"Create", "Like", "Note", "Announce"}), "id": iid, "summary": fmt.Sprint("s", i)})
+				it := J{"type": Pick(r, []string{"Create", "Like", "Note", "Announce"}), "id": iid, "summary": fmt.Sprint("s", i)}
+				// what the application supplies is served as supplied: a page may embed values that carry hidden recipients
+				if r.Intn(4) == 0 {
+					it[Pick(r, []string{"bto", "bcc"})] = st.Dave
+				}
+				if r.Intn(5) == 0 && it["type"] != "Note" {
+					it["object"] = J{"type": "Note", "id": iid + "/o", "bto": []string{st.Erin}, "content": "inner"}
+				}
+				items = append(items, it)
 			} else {
 				items = append(items, iid)
 			}
@@ -59,6 +67,19 @@ func genC20(r *Rng, k int) *RunSpec {
 		}
 		if r.Bool() {
 			d["partOf"] = id + "?all"
+		}
+		// the other members of a page are the application's business too
+		if r.Bool() {
+			d["totalItems"] = n + r.Intn(40)
+		}
+		if r.Intn(3) == 0 {
+			d["startIndex"] = r.Intn(100)
+		}
+		if r.Intn(3) == 0 {
+			d["next"] = id + "?page=2"
+		}
+		if r.Intn(4) == 0 {
+			d["summary"] = "page"
 		}
 		return d
 	}
